@@ -159,6 +159,10 @@ impl Debugger {
 
     pub(super) fn increment_instruction_count(&mut self) {
         self.instruction_count += 1;
+        // The breakpoint which paused execution is only ignored until an instruction is executed.
+        // If control comes straight back to it, or the PC was moved in the meantime (`reset`,
+        // `goto`), it must break again.
+        self.current_breakpoint = None;
     }
 
     /// Read and execute user commands, until an [`Action`] is raised.
